@@ -76,7 +76,26 @@ func (c *checker) rpc(e *sim.Ev) {
 // checkLeaderSend: what a leader sends must come from its own log (C04
 // "leader building prev from the wrong entry", non-contiguous batches).
 func (c *checker) checkLeaderSend(r *rpcRec, e *sim.Ev) {
-	if r.kind != "ae" || len(r.ents) == 0 {
+	if r.kind != "ae" {
+		return
+	}
+	// the previous entry a leader names exists in its own history with that term: in its log,
+	// or - when it is the last entry its snapshot covers - in the committed history
+	if p, t := r.c, r.d; p > 0 {
+		d := c.server(r.from.s).disk
+		if en, ok := d.logs[p]; ok {
+			c.cov("ae-prev-checked-against-leader-log")
+			if en.T != t {
+				c.violate("C04", "ae-prev-term-not-in-leader-log", e.Seq, "%s sent AE #%d with previous entry (%d, term %d) but its own log holds term %d there", r.from, r.id, p, t, en.T)
+			}
+		} else if g := c.G[p]; g != nil && p <= d.maxSnapIndex() {
+			c.cov("ae-prev-checked-against-committed-history")
+			if g.term != t {
+				c.violate("C04", "ae-prev-term-not-in-history", e.Seq, "%s sent AE #%d with previous entry (%d, term %d), taken from its snapshot, but the committed entry %d has term %d", r.from, r.id, p, t, p, g.term)
+			}
+		}
+	}
+	if len(r.ents) == 0 {
 		return
 	}
 	prev := r.c
